@@ -10,6 +10,7 @@ import (
 	"net"
 	"os"
 	"sort"
+	"sync"
 	"time"
 
 	"verifharness/vh"
@@ -23,14 +24,29 @@ type PCfg struct {
 	Radius bool `json:"radius"` // the teardown handler has a RADIUS client
 }
 
-// POp: K = padr | lcpack | pap | ipcpack | padt | lcpterm | age | idle | tdpadt | tdterm | tdall.
+// POp: K = padr | lcpack | pap | ipcpack | padt | lcpterm | age | idle | tdpadt | tdterm | tdall | overlap.
 // S: session ordinal (sessions get id = instance = 1, 2, ... in creation order). C: client (source MAC).
+// overlap: two ending paths at once. A (a teardown path: tdpadt | tdterm | tdall) is started and held inside
+// SessionTeardown.cleanup at Gate (1: inside the eBPF-remove callback, the first cleanup step; 2: waiting for
+// the RADIUS Accounting-Response to its Accounting-Stop; a path that never reaches the gate just runs to its
+// end); B is then started and given 40 ms to run to completion (it cannot when it needs the teardown mutex);
+// then the gate opens and both are awaited.
 type POp struct {
-	K  string `json:"k"`
-	C  int    `json:"c,omitempty"`
-	S  int    `json:"s,omitempty"`
-	OK bool   `json:"ok,omitempty"`
-	D  int    `json:"d,omitempty"`
+	K    string `json:"k"`
+	C    int    `json:"c,omitempty"`
+	S    int    `json:"s,omitempty"`
+	OK   bool   `json:"ok,omitempty"`
+	D    int    `json:"d,omitempty"`
+	A    *POp   `json:"a,omitempty"`
+	B    *POp   `json:"b,omitempty"`
+	Gate int    `json:"gate,omitempty"`
+}
+
+// gate holds one caller at a chosen point until it is opened.
+type gate struct {
+	kind    int
+	entered chan struct{}
+	open    chan struct{}
 }
 
 type PCase struct {
@@ -78,7 +94,27 @@ type pworld struct {
 	inst   map[string]uint64         // RADIUS session id -> instance
 	objs   map[uint64]*pppoe.Session // instance -> session object
 	events [][2]uint64
+	evmu   sync.Mutex // events and gate: callbacks run on two goroutines during an overlap
+	gate   *gate
 	nsent  int
+}
+
+func (w *pworld) event(k, v uint64) {
+	w.evmu.Lock()
+	w.events = append(w.events, [2]uint64{k, v})
+	w.evmu.Unlock()
+}
+
+// takeGate disarms and returns the armed gate when it is of the given kind.
+func (w *pworld) takeGate(kind int) *gate {
+	w.evmu.Lock()
+	defer w.evmu.Unlock()
+	g := w.gate
+	if g == nil || g.kind != kind {
+		return nil
+	}
+	w.gate = nil
+	return g
 }
 
 func (e *kenv) newPWorld(c PCfg) *pworld {
@@ -102,14 +138,19 @@ func (e *kenv) newPWorld(c PCfg) *pworld {
 	if c.Radius {
 		w.td.SetRADIUSClient(e.acct.client())
 	}
-	w.td.SetSendPADT(func(s *pppoe.Session, tags []pppoe.Tag) { w.events = append(w.events, [2]uint64{4, uint64(s.ID)}) })
-	w.td.SetSendLCPTermReq(func(s *pppoe.Session, reason string) { w.events = append(w.events, [2]uint64{7, uint64(s.ID)}) })
+	w.td.SetSendPADT(func(s *pppoe.Session, tags []pppoe.Tag) { w.event(4, uint64(s.ID)) })
+	w.td.SetSendLCPTermReq(func(s *pppoe.Session, reason string) { w.event(7, uint64(s.ID)) })
 	w.td.SetUpdateEBPFMaps(func(s *pppoe.Session, remove bool) error {
 		if remove {
-			w.events = append(w.events, [2]uint64{3, uint64(s.ID)})
+			w.event(3, uint64(s.ID))
+			if g := w.takeGate(1); g != nil {
+				close(g.entered)
+				<-g.open
+			}
 		}
 		return nil
 	})
+	e.acct.setOnStop(func() *gate { return w.takeGate(2) })
 	ctx, cancel := context.WithCancel(context.Background())
 	w.stop = cancel
 	go w.srv.VerifC04Run(ctx)
@@ -118,7 +159,7 @@ func (e *kenv) newPWorld(c PCfg) *pworld {
 	return w
 }
 
-func (w *pworld) close() { w.stop(); w.sock.Shutdown() }
+func (w *pworld) close() { w.e.acct.setOnStop(nil); w.stop(); w.sock.Shutdown() }
 
 func (w *pworld) push(f []byte) {
 	w.sock.Push(f)
@@ -181,19 +222,14 @@ func (w *pworld) snapshot() string {
 	return fmt.Sprintf("%s %s %s %s", vh.List(rows), vh.List(mi), vh.List(av), vh.List(al))
 }
 
-func (w *pworld) apply(o POp, tags map[string]bool) string {
-	var op string
-	mac := macNum(cliMAC(o.C))
-	w.events = nil
+// do runs one (non-overlap) op on the real objects.
+func (w *pworld) do(o POp) {
 	switch o.K {
 	case "padr":
-		op = fmt.Sprintf("Padr %d", mac)
 		w.push(pFrame(o.C, 0x8863, 0x19, 0, append(pTag(0x0101, nil), pTag(0x0104, []byte("cookie"))...)))
 	case "lcpack":
-		op = fmt.Sprintf("LcpAck %d %d", o.S, mac)
 		w.push(pSess(o.C, o.S, 0xC021, pCtl(2, 1, nil)))
 	case "pap":
-		op = fmt.Sprintf("Pap %d %d %s", o.S, mac, vh.Bool(o.OK))
 		pass := "bad"
 		if o.OK {
 			pass = "good"
@@ -202,36 +238,61 @@ func (w *pworld) apply(o POp, tags map[string]bool) string {
 		d = append(append(d, byte(len(pass))), pass...)
 		w.push(pSess(o.C, o.S, 0xC023, pCtl(1, 7, d)))
 	case "ipcpack":
-		op = fmt.Sprintf("IpcpAck %d %d", o.S, mac)
 		w.push(pSess(o.C, o.S, 0x8021, pCtl(2, 2, nil)))
 	case "padt":
-		op = fmt.Sprintf("Padt %d %d", o.S, mac)
 		w.push(pFrame(o.C, 0x8863, 0xa7, o.S, nil))
 	case "lcpterm":
-		op = fmt.Sprintf("LcpTerm %d %d", o.S, mac)
 		w.push(pSess(o.C, o.S, 0xC021, pCtl(5, 9, nil)))
 	case "age":
-		op = fmt.Sprintf("PAge %d%%Z", o.D)
 		w.sm.VerifC16Age(time.Duration(o.D) * time.Second)
 	case "idle":
-		op = "IdleTick"
 		w.sm.CleanupExpired(pTimeout * time.Second) // the body of Server.cleanupLoop with SessionTimeout 0
 	case "tdpadt":
-		op = fmt.Sprintf("TdPadt %d %d", o.S, mac)
 		if s := w.objs[uint64(o.S)]; s != nil {
 			must(w.td.HandleClientPADT(s, cliMAC(o.C), s.ID))
 		}
 	case "tdterm":
-		op = fmt.Sprintf("TdTerm %d", o.S)
 		if s := w.objs[uint64(o.S)]; s != nil {
 			must(w.td.TerminateSession(s, pppoe.TerminateCauseAdminReset, ""))
 		}
 	case "tdall":
 		w.td.TerminateAll(pppoe.TerminateCauseNASReboot, "")
+	default:
+		panic("bad op " + o.K)
+	}
+}
+
+// term is the Model's op for o; for tdall it needs the events of the run (oracle).
+func (w *pworld) term(o POp) string {
+	mac := macNum(cliMAC(o.C))
+	switch o.K {
+	case "padr":
+		return fmt.Sprintf("Padr %d", mac)
+	case "lcpack":
+		return fmt.Sprintf("LcpAck %d %d", o.S, mac)
+	case "pap":
+		return fmt.Sprintf("Pap %d %d %s", o.S, mac, vh.Bool(o.OK))
+	case "ipcpack":
+		return fmt.Sprintf("IpcpAck %d %d", o.S, mac)
+	case "padt":
+		return fmt.Sprintf("Padt %d %d", o.S, mac)
+	case "lcpterm":
+		return fmt.Sprintf("LcpTerm %d %d", o.S, mac)
+	case "age":
+		return fmt.Sprintf("PAge %d%%Z", o.D)
+	case "idle":
+		return "IdleTick"
+	case "tdpadt":
+		return fmt.Sprintf("TdPadt %d %d", o.S, mac)
+	case "tdterm":
+		return fmt.Sprintf("TdTerm %d", o.S)
+	case "tdall":
 		// oracle: the order in which TerminateAll met the sessions = order of the eBPF-remove callbacks
 		var order []string
+		seen := map[uint64]bool{}
 		for _, e := range w.events {
-			if e[0] == 3 {
+			if e[0] == 3 && !seen[e[1]] {
+				seen[e[1]] = true
 				for i, s := range w.objs {
 					if uint64(s.ID) == e[1] {
 						order = append(order, vh.N(i))
@@ -239,9 +300,55 @@ func (w *pworld) apply(o POp, tags map[string]bool) string {
 				}
 			}
 		}
-		op = "TdAll " + vh.List(order)
-	default:
-		panic("bad op " + o.K)
+		return "TdAll " + vh.List(order)
+	}
+	panic("bad op " + o.K)
+}
+
+func isTeardown(k string) bool { return k == "tdpadt" || k == "tdterm" || k == "tdall" }
+
+func (w *pworld) apply(o POp, tags map[string]bool) string {
+	var op string
+	w.events = nil
+	if o.K == "overlap" {
+		if o.A == nil || o.B == nil || !isTeardown(o.A.K) || o.B.K == "overlap" || o.B.K == "padr" {
+			panic("bad overlap")
+		}
+		g := &gate{kind: o.Gate, entered: make(chan struct{}), open: make(chan struct{})}
+		w.evmu.Lock()
+		w.gate = g
+		w.evmu.Unlock()
+		doneA, doneB := make(chan struct{}), make(chan struct{})
+		go func() { defer close(doneA); w.do(*o.A) }()
+		held := false
+		select {
+		case <-g.entered:
+			held = true
+		case <-doneA:
+		}
+		w.takeGate(o.Gate) // a path that never reached the gate: disarm it
+		go func() { defer close(doneB); w.do(*o.B) }()
+		select {
+		case <-doneB:
+			if held {
+				tags["overlap:second-completed-inside"] = true
+			}
+		case <-time.After(40 * time.Millisecond):
+			tags["overlap:second-waited"] = true
+		}
+		close(g.open)
+		<-doneA
+		<-doneB
+		if held {
+			tags[fmt.Sprintf("overlap:held-at-gate-%d", o.Gate)] = true
+		} else {
+			tags["overlap:first-not-held"] = true
+		}
+		tags["overlap:"+o.A.K+"+"+o.B.K] = true
+		op = fmt.Sprintf("POverlap %s (%s) (%s)", vh.Bool(held), w.term(*o.A), w.term(*o.B))
+	} else {
+		w.do(o)
+		op = w.term(o)
 	}
 	snap := w.snapshot()
 	evs := w.events
@@ -335,6 +442,45 @@ func enumPPPoE() []PCase {
 	return out
 }
 
+// enumOverlap: two ending paths at once. Configuration x establishment prefix x first path (held inside
+// cleanup) x gate x second path, then a plain PADT for the same session (a third ending), then a second
+// client establishes (does it get the address back, exactly once?).
+var pOverA = []string{"tdpadt", "tdterm", "tdall"}
+var pOverB = []string{"padt", "lcpterm", "idle", "tdpadt", "tdterm", "tdall"}
+
+func enumOverlap() []PCase {
+	var out []PCase
+	for _, cfg := range []PCfg{{Pool: true, Radius: true}, {Pool: true, Radius: false}, {Pool: false, Radius: true}} {
+		for prefix := 1; prefix <= 4; prefix++ {
+			for _, a := range pOverA {
+				for _, b := range pOverB {
+					for gate := 1; gate <= 2; gate++ {
+						if gate == 2 && (!cfg.Radius || prefix < 3) {
+							continue // no Accounting-Stop is sent: same as gate 1 never reached
+						}
+						var ops []POp
+						for i := 0; i < prefix; i++ {
+							ops = append(ops, POp{K: pEstablish[i], S: 1, C: 0, OK: true})
+						}
+						if b == "idle" {
+							ops = append(ops, POp{K: "age", D: 900})
+						}
+						ao, bo := pEndOps(a, 1, 0), pEndOps(b, 1, 0)
+						ops = append(ops, POp{K: "overlap", A: &ao[len(ao)-1], B: &bo[len(bo)-1], Gate: gate})
+						ops = append(ops, POp{K: "padt", S: 1, C: 0})
+						for i := 0; i < 4; i++ {
+							ops = append(ops, POp{K: pEstablish[i], S: 2, C: 1, OK: true})
+						}
+						ops = append(ops, POp{K: "padt", S: 2, C: 1})
+						out = append(out, PCase{Cfg: cfg, Ops: ops})
+					}
+				}
+			}
+		}
+	}
+	return out
+}
+
 func genRandP(r *vh.Rng, maxOps int, guarded bool) PCase {
 	c := PCase{Cfg: PCfg{Pool: r.Chance(5, 6), Radius: r.Chance(3, 4)}}
 	ncli := 2 + r.Intn(2)
@@ -384,6 +530,30 @@ func genRandP(r *vh.Rng, maxOps int, guarded bool) PCase {
 					continue
 				}
 				k = []string{"padt", "tdpadt", "tdterm"}[r.Intn(3)]
+			}
+			if (k == "tdpadt" || k == "tdterm") && r.Chance(1, 3) {
+				// two paths at once: the teardown path is held inside cleanup while another ending path
+				// (for this or another session) runs
+				bk := pOverB[r.Intn(len(pOverB))]
+				s2, cl2 := s, cl
+				if guarded {
+					bk = []string{"padt", "tdpadt", "tdterm"}[r.Intn(3)]
+				} else if r.Chance(1, 4) {
+					s2 = 1 + r.Intn(created)
+					cl2 = owner[s2]
+				}
+				ao, bo := pEndOps(k, s, cl), pEndOps(bk, s2, cl2)
+				if bk == "idle" {
+					bo = bo[1:] // (no ageing first: whatever is stale by now)
+				}
+				c.Ops = append(c.Ops, POp{K: "overlap", A: &ao[0], B: &bo[0], Gate: 1 + r.Intn(2)})
+				if bk == "tdall" || bk == "idle" {
+					for j := 1; j <= created; j++ {
+						dead[j] = true
+					}
+				}
+				dead[s], dead[s2] = true, true
+				continue
 			}
 			c.Ops = append(c.Ops, pEndOps(k, s, cl)...)
 			if k == "tdall" || k == "idle" {
